@@ -17,13 +17,14 @@ class C14(Check):
     pid = "C14"
     title = "Protocols: each step's parameter values hold exactly over its interval"
     rules = {
+        "Q4": "(shared with C10) views of a protocol result evaluate every segment under that segment's parameter record (V2, V5 of C10)",
         "Q1": "make_protocol stores each step's values under the time accumulated *including* that step (cumulative end times from 0)",
         "Q2": "in both protocol runners every iteration applies the row's parameter values before simulating, unconditionally, "
               "and the time arguments type-check (t_start ABS taken once; ABS + DUR; no ABS/REL/DUR mix)",
         "Q3": "time-course form: protocol index shifted to absolute time, t_start added to the requested points only under the "
               "relative flag, outer join with the step boundaries, half-open selection (t_start, t_end] then t_start := t_end",
     }
-    floors = {"Q1": 3, "Q2": 8, "Q3": 4}
+    floors = {"Q4": 4, "Q1": 3, "Q2": 8, "Q3": 4}
     decided = [
         "step i's values are applied before, and only before, simulating step i's interval",
         "step intervals are (cumulative end of step i-1, cumulative end of step i] in absolute time, also when continuing an earlier run",
@@ -42,6 +43,7 @@ class C14(Check):
         for name in ("simulate_protocol", "simulate_protocol_time_course"):
             self.q2(sim, name)
         self.q3(sim)
+        self.borrow("C10", ("V2", "V5"), "Q4")
 
     def q1(self, init) -> None:
         fn = init.func("make_protocol")
